@@ -31,13 +31,18 @@ open Selene.Scope Selene.Lua
 the local declaration it resolves to (hoisted globals and blocked `...` counting as none), are
 exactly — as a multiset — the identifier occurrences in expression positions that Lua's scoping rules
 give, each with the declaration visible there. -/
-theorem C01_resolution (b : Block) :
-    (Core.analyse b).answers.Perm (SpecProof.reads (Spec.resolve b)) := by
+theorem C01_log [Core.NameFilter] (b : Block) :
+    (Core.analyse b).log.Perm (SpecProof.log (Spec.resolve b)) := by
   rw [CoreProof.analyse_eq b]
   exact (SpecProof.resolve_perm b).symm
 
+theorem C01_resolution [Core.NameFilter] (b : Block) :
+    (Core.analyse b).answers.Perm (SpecProof.reads (Spec.resolve b)) := by
+  rw [← CoreProof.log_answers, ← SpecProof.log_reads]
+  exact (C01_log b).filterMap _
+
 /-- the same, pointwise: an answer of the machine is an occurrence of the specification and vice versa -/
-theorem C01_resolution_mem (b : Block) (t : Nat) (d : Option Nat) :
+theorem C01_resolution_mem [Core.NameFilter] (b : Block) (t : Nat) (d : Option Nat) :
     (t, d) ∈ (Core.analyse b).answers ↔
       ∃ oc ∈ (Spec.resolve b).occs, SpecProof.counted oc = true ∧ oc.tok = t ∧ oc.binding.map (·.1) = d := by
   rw [(C01_resolution b).mem_iff]
@@ -61,7 +66,9 @@ def witness : Block :=
         .nil))
     .none
 
-example : (Core.analyse witness).answers = [(13, some 1), (16, some 11), (18, some 8), (20, none), (22, none)] := by decide
+example : (@Core.analyse ⟨fun _ => true⟩ witness).answers = [(13, some 1), (16, some 11), (18, some 8), (20, none), (22, none)] := by decide
+/-- … and its declarations: `f` (6) and the inner `x` (11) which re-uses the name of the outer `x` (1) -/
+example : (@Core.analyse ⟨fun _ => true⟩ witness).shadows = [(1, none), (6, none), (11, some 1)] := by decide
 
 /-- the fold step of `undefined_variable` -/
 def step (hasFields : String → Bool) (acc : List Nat × List Diag) (r : Ref) : List Nat × List Diag :=
